@@ -10,7 +10,6 @@ import (
 	"math/big"
 	"math/rand/v2"
 
-	"github.com/nspcc-dev/neo-go/pkg/crypto/hash"
 	"github.com/nspcc-dev/neo-go/pkg/encoding/address"
 	"github.com/nspcc-dev/neo-go/pkg/io"
 	"github.com/nspcc-dev/neo-go/pkg/util"
@@ -154,12 +153,7 @@ func (t *Transaction) GetAttributes(typ AttrType) []Attribute {
 
 // decodeHashableFields decodes the fields that are used for signing the
 // transaction, which are all fields except the scripts.
-func (t *Transaction) decodeHashableFields(br *io.BinReader, buf []byte) {
-	var start, end int
-
-	if buf != nil {
-		start = len(buf) - br.Len()
-	}
+func (t *Transaction) decodeHashableFields(br *io.BinReader) {
 	t.Version = uint8(br.ReadB())
 	t.Nonce = br.ReadU32LE()
 	t.SystemFee = int64(br.ReadU64LE())
@@ -193,15 +187,10 @@ func (t *Transaction) decodeHashableFields(br *io.BinReader, buf []byte) {
 	if br.Err == nil {
 		br.Err = t.isValid()
 	}
-	if buf != nil {
-		end = len(buf) - br.Len()
-		t.hash = hash.Sha256(buf[start:end])
-		t.hashed = true
-	}
 }
 
-func (t *Transaction) decodeBinaryNoSize(br *io.BinReader, buf []byte) {
-	t.decodeHashableFields(br, buf)
+func (t *Transaction) decodeBinaryNoSize(br *io.BinReader) {
+	t.decodeHashableFields(br)
 	if br.Err != nil {
 		return
 	}
@@ -219,8 +208,11 @@ func (t *Transaction) decodeBinaryNoSize(br *io.BinReader, buf []byte) {
 	}
 
 	// Create the hash of the transaction at decode, so we dont need
-	// to do it anymore.
-	if br.Err == nil && buf == nil {
+	// to do it anymore. The hash is always computed from the canonical
+	// encoding of the decoded fields, never from the received bytes: the
+	// reader accepts non-canonical encodings (e.g. non-minimal variable-length
+	// integers), and transaction identity must not depend on them.
+	if br.Err == nil {
 		br.Err = t.createHash()
 	}
 }
@@ -229,7 +221,7 @@ func (t *Transaction) decodeBinaryNoSize(br *io.BinReader, buf []byte) {
 // computes and caches transaction hash and size (see [Transaction.Hash] and
 // [Transaction.Size]).
 func (t *Transaction) DecodeBinary(br *io.BinReader) {
-	t.decodeBinaryNoSize(br, nil)
+	t.decodeBinaryNoSize(br)
 
 	if br.Err == nil {
 		_ = t.Size()
@@ -291,7 +283,7 @@ func (t *Transaction) createHash() error {
 // DecodeHashableFields decodes a part of transaction which should be hashed.
 func (t *Transaction) DecodeHashableFields(buf []byte) error {
 	r := io.NewBinReaderFromBuf(buf)
-	t.decodeHashableFields(r, buf)
+	t.decodeHashableFields(r)
 	if r.Err != nil {
 		return r.Err
 	}
@@ -300,7 +292,7 @@ func (t *Transaction) DecodeHashableFields(buf []byte) error {
 		return errors.New("additional data after the signed part")
 	}
 	t.Scripts = make([]Witness, 0)
-	return nil
+	return t.createHash()
 }
 
 // Bytes converts the transaction to []byte.
@@ -319,14 +311,15 @@ func (t *Transaction) Bytes() []byte {
 func NewTransactionFromBytes(b []byte) (*Transaction, error) {
 	tx := &Transaction{}
 	r := io.NewBinReaderFromBuf(b)
-	tx.decodeBinaryNoSize(r, b)
+	tx.decodeBinaryNoSize(r)
 	if r.Err != nil {
 		return nil, r.Err
 	}
 	if r.Len() != 0 {
 		return nil, errors.New("additional data after the transaction")
 	}
-	tx.size = len(b)
+	// The size is the one of the canonical encoding (len(b) can be bigger).
+	_ = tx.Size()
 	return tx, nil
 }
 
